@@ -362,6 +362,9 @@ func (o *SigOpts) ExclusiveOnly() {
 	if o.Transform != C14NAlgs[0] && o.Transform != C14NAlgs[1] {
 		o.Transform = C14NAlgs[0]
 	}
+	// an InclusiveNamespaces prefix that is in scope in the Response but not in the
+	// standalone plaintext changes the canonical form between signing and verification
+	o.PrefixList = ""
 }
 
 var _ = dsig.Namespace
